@@ -755,6 +755,34 @@ func init() {
 	executors["gen.update"] = execGenUpdate
 }
 
+// c05Corpus: the minimised packages of the defects found so far; they run first.
+func c05Corpus() []*c05Pkg {
+	sc := func(c byte) *sigT { return &sigT{kind: c} }
+	tup := func(ts ...*sigT) *sigT { return &sigT{kind: '(', elems: ts} }
+	vec := func(t *sigT) *sigT { return &sigT{kind: '[', elems: []*sigT{t}} }
+	one := func(itf string, a c05Action) *c05Pkg {
+		return &c05Pkg{name: "gen", itfs: []c05Itf{{name: itf, actions: []c05Action{a}}}}
+	}
+	par := func(n string, t *sigT) c05Param { return c05Param{n, t} }
+	return []*c05Pkg{
+		// the tuple marshal assigned an undeclared err (signal and property helpers)
+		one("A", c05Action{kind: "sig", name: "tick", params: []c05Param{par("a", tup(sc('i'), sc('s')))}}),
+		one("A", c05Action{kind: "prop", name: "level", params: []c05Param{par("a", tup(sc('i'), sc('s')))}}),
+		// the getter's local variable shadowed the value package
+		one("A", c05Action{kind: "prop", name: "level", params: []c05Param{par("a", vec(sc('m')))}}),
+		// nothing reads the buffer of an empty tuple
+		one("A", c05Action{kind: "fn", name: "run", params: []c05Param{par("a", tup())}}),
+		one("A", c05Action{kind: "prop", name: "level", params: []c05Param{par("a", tup())}}),
+		// the property callback with several parameters
+		one("A", c05Action{kind: "prop", name: "level", params: []c05Param{par("a", sc('i')), par("b", sc('s'))}}),
+		// an interface whose name starts with a lower-case letter
+		one("worker", c05Action{kind: "fn", name: "run", params: []c05Param{par("a", sc('i'))}, ret: sc('s')}),
+		// type/basic used only through text: the import was missing
+		one("A", c05Action{kind: "fn", name: "run", ret: sc('s')}),
+		one("A", c05Action{kind: "fn", name: "run", params: []c05Param{par("a", vec(sc('m')))}}),
+	}
+}
+
 func c05Tuple(ts []*sigT) *sigT { return &sigT{kind: '(', elems: ts} }
 
 func c05Shape(t *sigT) string {
@@ -799,8 +827,15 @@ func runC05(r *Rand, tier string, o *Out) {
 			o.Fail("a well-formed IDL package does not yield a running proxy and stub: "+c05FailClass(res), res+" for\n"+text)
 		}
 	}
-	for i := 0; i < npk; i++ {
-		p := c05GenPkg(r)
+	corpus := c05Corpus()
+	for i := 0; i < len(corpus)+npk; i++ {
+		var p *c05Pkg
+		if i < len(corpus) {
+			p = corpus[i]
+			o.Count("corpus-packages")
+		} else {
+			p = c05GenPkg(r)
+		}
 		text := p.idl()
 		res := o.Do("P", "gen.pkg "+hx([]byte(text)), true)
 		o.Count("packages")
